@@ -55,7 +55,8 @@ class P(vlib.Prop):
             "configuration = g-th Retrieve; the script decides per generation: resolves / validates / which factory fails / which "
             "component fails to Start / which fail to Shutdown; 1-2 extensions, 0-2 processors) and instrumented components. The "
             "goroutine running Run is parked at gates where a model section begins (provider.Retrieve, first NotReady() of a retiring "
-            "service, Retrieved.Close in shutdown()); between sections the harness injects watcher notifications (nil/error), "
+            "service, Retrieved.Close in shutdown()); between sections the harness injects watcher notifications (nil/error; each from a "
+            "goroutine of its own, a second one behind a pending change stays blocked as a provider would), "
             "SIGHUP/SIGTERM/SIGINT into signalsChannel (dropped when full, as os/signal does), plain senders on asyncErrorChannel, "
             "components reporting StatusFatalError, context cancellation, Shutdown() calls and storms of 2-7 concurrent Shutdown() "
             "calls - before Run, during start-up, while Running, during both halves of a reload, during shutdown() and after Run "
